@@ -23,7 +23,7 @@ theorem panic_probeLabel (stem : Name) (s : St) : (s.probeLabel stem).2.panic = 
 
 theorem panic_ifPrologue (g : Globals) (cond : IfCond) (dup isElse : Bool) (le : Option Name) (s : St) :
     (ifPrologue g cond dup isElse le s).2.2.panic = s.panic := by
-  unfold ifPrologue
+  unfold ifPrologue ifLabels
   dsimp only
   have h0 : (if dup then s.addErr .ifElseDuplicated "if-condition".toList 1 0 else s).panic = s.panic := by
     cases dup <;> rfl
